@@ -3484,6 +3484,12 @@ func ruleP03InsertNonEmpty(p *Prog, r *Report) {
 											ok, how = true, fmt.Sprintf("one element per element of S[%d:], called where len(S) != %d", k, k)
 										}
 									}
+									// `if len(S) <= k { return }` in front
+									if l0, isL0 := strip(cb.X).(*ssa.Call); isL0 && (cb.Op == token.LEQ || cb.Op == token.LSS) && len(l0.Call.Args) == 1 && (sameValue(l0.Call.Args[0], sl.X) || strip(l0.Call.Args[0]) == strip(sl.X)) {
+										if kk, isKK := constInt(cb.Y); isKK && ((cb.Op == token.LEQ && kk >= k) || (cb.Op == token.LSS && kk > k)) {
+											ok, how = true, fmt.Sprintf("one element per element of S[%d:], called where len(S) > %d", k, k)
+										}
+									}
 									continue
 								}
 								l2, isLen2 := strip(cb.X).(*ssa.Call)
